@@ -2,7 +2,7 @@
    correspondence check (vm_compute in the kernel, extracted OCaml) call only this. *)
 From Coq Require Import ZArith List Bool.
 Import ListNotations.
-From Eudoxia Require Import Model.Codec Model.RunLife Model.RunExec Model.RunTime Model.RunSim Model.RunCsv Model.RunTools Model.RunGen.
+From Eudoxia Require Import Model.Codec Model.RunLife Model.RunExec Model.RunTime Model.RunSim Model.RunCsv Model.RunTools Model.RunGen Model.RunTrace.
 
 Definition run (kind : Z) (l : list Z) : list Z :=
   match kind with
@@ -11,6 +11,8 @@ Definition run (kind : Z) (l : list Z) : list Z :=
   | 3 => run_exec l
   | 4 => run_time l
   | 5 => run_sim l
+  | 13 => run_trace l
+  | 23 => run_gentrace l
   | 14 => run_csv_read l
   | 15 => run_gen l
   | 24 => run_csv_write l
